@@ -26,12 +26,12 @@ const (
 )
 
 type seenReq struct {
-	Method  string
-	URL     string
-	CSeq    string
-	Auth    string // none | basic | digest | other
-	Cred    string // plain | md5 | wrong | -   (which password the credentials were computed from)
-	Session string
+	Method    string
+	URL       string
+	CSeq      string
+	Auth      string // none | basic | digest | other
+	Cred      string // plain | md5 | wrong | -   (which password the credentials were computed from)
+	Session   string
 	Transport string
 }
 
@@ -84,15 +84,23 @@ type camConn struct {
 	dead     chan struct{} // closed when the camera itself closed the connection
 	deadOnce sync.Once
 	wmu      sync.Mutex
+	// a camera with gatePlay withholds the answer to PLAY on every connection until the harness lets it
+	// go (this is how the order of the registrations of simultaneous pulls is forced without hooks)
+	playAsked chan struct{} // closed when the PLAY request has been received
+	playGate  chan struct{} // closed by the harness: answer PLAY now
+	gateOnce  sync.Once
 }
 
+func (cc *camConn) releasePlay() { cc.gateOnce.Do(func() { close(cc.playGate) }) }
+
 type camera struct {
-	ln      net.Listener
-	script  []string
-	sdp     string
-	mu      sync.Mutex
-	conns   []*camConn
-	accepts chan *camConn
+	ln       net.Listener
+	script   []string
+	sdp      string
+	mu       sync.Mutex
+	conns    []*camConn
+	accepts  chan *camConn
+	gatePlay bool // set before the first connection arrives
 }
 
 func newCamera(script []string, sdp string) (*camera, error) {
@@ -129,7 +137,8 @@ func (cam *camera) acceptLoop() {
 		if err != nil {
 			return
 		}
-		cc := &camConn{c: c, br: bufio.NewReader(c), peerGone: make(chan struct{}), played: make(chan struct{}), dead: make(chan struct{})}
+		cc := &camConn{c: c, br: bufio.NewReader(c), peerGone: make(chan struct{}), played: make(chan struct{}), dead: make(chan struct{}),
+			playAsked: make(chan struct{}), playGate: make(chan struct{})}
 		cam.mu.Lock()
 		cam.conns = append(cam.conns, cc)
 		cam.mu.Unlock()
@@ -342,6 +351,14 @@ func (cam *camera) serve(cc *camConn) {
 			tok = cam.script[i]
 		}
 		i++
+		if cam.gatePlay && r.Method == "PLAY" && !playedSignalled {
+			close(cc.playAsked)
+			select {
+			case <-cc.playGate:
+			case <-cc.dead:
+				return
+			}
+		}
 		cont, success := cam.respond(cc, r, tok)
 		if r.Method == "PLAY" && success && !playedSignalled {
 			playedSignalled = true
